@@ -57,10 +57,13 @@ type World struct {
 	fl         *flowInfo
 	ai         *absint
 	synthPos   map[ssa.Instruction]string
+	synth      *synthState
 	storeSets  map[*ssa.Function]map[*types.Var]bool
 	NPkgs      int
 	NFuncs     int
 }
+
+var theWorld *World
 
 type analysisFailure struct{ msg string }
 
@@ -150,6 +153,7 @@ func Load(dir, goos, goarch string) *World {
 			}
 		}
 	}
+	theWorld = w
 	return w
 }
 
